@@ -415,6 +415,15 @@ class Sign(Engine):
             pubbytes = bytes([6 + (Q[1] & 1)]) + Q[0].to_bytes(32, 'big') + Q[1].to_bytes(32, 'big')
         want = EC.verify(EC.point_decode(pubbytes), vz, r, s)
         pub = K.CPubKey(pubbytes)
+        if not kind.startswith('pubkey-') and kind != 'other-key' and nonce % 3 == 0:
+            # the public-key object as a wallet hands it out: taken from a private-key object that is
+            # gone by the time the public key is used (object lifetime is the fault)
+            tmp = self.W.CKey(k['d'].to_bytes(32, 'big'), k['comp'])
+            pub = tmp.pub
+            del tmp
+            tmp2 = self.W.CBitcoinSecret.from_secret_bytes(((k['d'] % (N - 1)) + 1).to_bytes(32, 'big'), not k['comp'])
+            del tmp2
+            ctx.fault('public-key-outlives-its-private-key-object')
         try:
             got = pub.verify(vdigest, sig)
         except Exception as e:
